@@ -257,4 +257,207 @@ Definition uint_try_from_bint (w N : Z) (fuel : nat) (pb : Z) (ps : bool) (int :
     Done t1'
   ).
 
+(* src/buint/numtraits.rs: macro to_int!, fn $name *)
+Definition U_to_int (w N : Z) (fuel : nat) (pb : Z) (ps : bool) (self : list Z) : res (option Z) :=
+  let out := (p_lit pb 0) in
+  let i := 0 in
+  if (w >? pb) then (
+    t1' <- arr_get self i ;;
+    let small := (ud pb t1') in
+    let trunc := (ud w (Cast.p_of_bits pb ps small)) in
+    t2' <- arr_get self i ;;
+    if (negb (t2' =? trunc)) then (
+      Done None
+    ) else (
+      let out := small in
+      let i := 1 in
+      if (p_is_neg pb ps out) then (
+        Done None
+      ) else (
+        t4' <- while_loop (R := (option Z)) fuel
+          (fun i => (i <? N))
+          (fun i =>
+            t3' <- arr_get self i ;;
+            if (negb (t3' =? 0)) then (
+              Done (Return None)
+            ) else (
+              let i := (i + 1) in
+              Done (Continue i)
+            ))
+          i ;;
+        match t4' with
+        | Exited i =>
+            Done (Some (Cast.p_of_bits pb ps out))
+        | Returned t5' => Done t5'
+        end
+      )
+    )
+  ) else (
+    t8' <- while_loop (R := (option Z)) fuel
+      (fun '(i, out) => true)
+      (fun '(i, out) =>
+        let shift := (ix_shl i (digit_BIT_SHIFT w)) in
+        if (orb (i >=? N) (shift >=? pb)) then (
+          Done (Break (i, out))
+        ) else (
+          t6' <- arr_get self i ;;
+          t7' <- pint_shl pb (ud pb t6') shift ;;
+          let out := (u_or out t7') in
+          let i := (i + 1) in
+          Done (Continue (i, out))
+        ))
+      (i, out) ;;
+    match t8' with
+    | Exited (i, out) =>
+        if (p_is_neg pb ps out) then (
+          Done None
+        ) else (
+          t11' <- while_loop (R := (option Z)) fuel
+            (fun i => (i <? N))
+            (fun i =>
+              t10' <- arr_get self i ;;
+              if (negb (t10' =? 0)) then (
+                Done (Return None)
+              ) else (
+                let i := (i + 1) in
+                Done (Continue i)
+              ))
+            i ;;
+          match t11' with
+          | Exited i =>
+              Done (Some (Cast.p_of_bits pb ps out))
+          | Returned t12' => Done t12'
+          end
+        )
+    | Returned t9' => Done t9'
+    end
+  ).
+
+(* src/bint/numtraits.rs: macro to_int!, fn $name *)
+Definition I_to_int (w N : Z) (fuel : nat) (pb : Z) (ps : bool) (self : list Z) : res (option Z) :=
+  let neg := (Core.is_negative w self) in
+  let '(out, padding) := (if neg then ((p_lit pb (-1)), (u_max w)) else ((p_lit pb 0), 0)) in
+  let i := 0 in
+  if (w >? pb) then (
+    t1' <- arr_get self i ;;
+    let small := (ud pb t1') in
+    let trunc := (ud w (Cast.p_of_bits pb ps small)) in
+    t2' <- arr_get self i ;;
+    if (negb (t2' =? trunc)) then (
+      Done None
+    ) else (
+      let out := small in
+      let i := 1 in
+      t4' <- while_loop (R := (option Z)) fuel
+        (fun i => (i <? N))
+        (fun i =>
+          t3' <- arr_get self i ;;
+          if (negb (t3' =? padding)) then (
+            Done (Return None)
+          ) else (
+            let i := (i + 1) in
+            Done (Continue i)
+          ))
+        i ;;
+      match t4' with
+      | Exited i =>
+          if (xorb (p_is_neg pb ps out) neg) then (
+            Done None
+          ) else (
+            Done (Some (Cast.p_of_bits pb ps out))
+          )
+      | Returned t5' => Done t5'
+      end
+    )
+  ) else (
+    if neg then (
+      t8' <- while_loop (R := (option Z)) fuel
+        (fun '(i, out) => true)
+        (fun '(i, out) =>
+          let shift := (ix_shl i (digit_BIT_SHIFT w)) in
+          if (orb (i >=? N) (shift >=? pb)) then (
+            Done (Break (i, out))
+          ) else (
+            t6' <- arr_get self i ;;
+            t7' <- pint_shl pb (ud pb (u_not w t6')) shift ;;
+            let out := (u_and out (u_not pb t7')) in
+            let i := (i + 1) in
+            Done (Continue (i, out))
+          ))
+        (i, out) ;;
+      match t8' with
+      | Exited (i, out) =>
+          t11' <- while_loop (R := (option Z)) fuel
+            (fun i => (i <? N))
+            (fun i =>
+              t10' <- arr_get self i ;;
+              if (negb (t10' =? padding)) then (
+                Done (Return None)
+              ) else (
+                let i := (i + 1) in
+                Done (Continue i)
+              ))
+            i ;;
+          match t11' with
+          | Exited i =>
+              if (xorb (p_is_neg pb ps out) neg) then (
+                Done None
+              ) else (
+                Done (Some (Cast.p_of_bits pb ps out))
+              )
+          | Returned t12' => Done t12'
+          end
+      | Returned t9' => Done t9'
+      end
+    ) else (
+      t15' <- while_loop (R := (option Z)) fuel
+        (fun '(i, out) => true)
+        (fun '(i, out) =>
+          let shift := (ix_shl i (digit_BIT_SHIFT w)) in
+          if (orb (i >=? N) (shift >=? pb)) then (
+            Done (Break (i, out))
+          ) else (
+            t13' <- arr_get self i ;;
+            t14' <- pint_shl pb (ud pb t13') shift ;;
+            let out := (u_or out t14') in
+            let i := (i + 1) in
+            Done (Continue (i, out))
+          ))
+        (i, out) ;;
+      match t15' with
+      | Exited (i, out) =>
+          t18' <- while_loop (R := (option Z)) fuel
+            (fun i => (i <? N))
+            (fun i =>
+              t17' <- arr_get self i ;;
+              if (negb (t17' =? padding)) then (
+                Done (Return None)
+              ) else (
+                let i := (i + 1) in
+                Done (Continue i)
+              ))
+            i ;;
+          match t18' with
+          | Exited i =>
+              if (xorb (p_is_neg pb ps out) neg) then (
+                Done None
+              ) else (
+                Done (Some (Cast.p_of_bits pb ps out))
+              )
+          | Returned t19' => Done t19'
+          end
+      | Returned t16' => Done t16'
+      end
+    )
+  ).
+
+(* src/bint/numtraits.rs: macro to_uint!, fn $name *)
+Definition I_to_uint (w N : Z) (fuel : nat) (pb : Z) (ps : bool) (self : list Z) : res (option Z) :=
+  if (Core.is_negative w self) then (
+    Done None
+  ) else (
+    t1' <- U_to_int w N fuel pb ps self ;;
+    Done t1'
+  ).
+
 End ConvGen.
